@@ -8,8 +8,9 @@ V = os.path.dirname(os.path.dirname(os.path.abspath(__file__)))
 
 def main():
     pid, wave, wt = sys.argv[1], sys.argv[2], sys.argv[3]
-    checks = sys.argv[4:] or [pid]
-    for n in (1, 2):
+    seeds = [int(a[6:]) for a in sys.argv[4:] if a.startswith("seeds=")] or [1, 2]
+    checks = [a for a in sys.argv[4:] if not a.startswith("seeds=")] or [pid]
+    for n in seeds:
         src = os.path.join(wt, "out", "change%d.diff" % n)
         if not os.path.exists(src):
             print("missing", src); continue
@@ -33,7 +34,10 @@ def main():
         meta = json.load(open(mp)) if os.path.exists(mp) else {
             "property": pid, "breaks": "", "needs": "", "caught_by": "",
             "agent_verified": "pinned suite passes with the change; demo fails with / passes without (seed agent in its own worktree, NOTES_agent.md)"}
-        meta["my_run"] = {c: results[c] for c in checks}
+        meta.setdefault("my_run", {})
+        if not isinstance(meta["my_run"], dict):
+            meta["my_run"] = {"note": meta["my_run"]}
+        meta["my_run"].update({c: results[c] for c in checks})
         json.dump(meta, open(mp, "w"), indent=1)
 
 if __name__ == "__main__":
